@@ -151,7 +151,7 @@ PROPS = {
                 "through the control connection, transfer through the production transfer loop; oracle = reference client: reply field 207 == "
                 "size-k, field 108 == header+size-k (no stored resource fork) or == size (preview), stream = strictly parsed FILP/INFO/DATA "
                 "header + exactly content[k:] + (resource fork | nothing | empty MACR header); non-trivial = size>0 and (k>0 or a fork is "
-                "stored or size>32 KiB); distinct = hash(name, content, mode, k, forks)",
+                "stored or size>32 KiB); distinct = hash(name, content, mode, k, forks); in 3 of 5 cases the client's bytes on the transfer connection are cut into segments (random cuts, cuts inside the fixed-size headers, byte by byte)",
         "assumptions": ["the empty 16-byte MACR trailer mobius appends when no resource fork is stored is tolerated (DESIGN C08 interpretation note)",
                         "the encoding of the name inside the flattened-file header is not asserted (not part of the statement)"],
         "quick": {"runs": [{"test": "^TestC08$", "shards": 16, "checks": 400, "timeout": 600}]},
@@ -167,7 +167,7 @@ PROPS = {
                 "consumed by the server per attempt (net.Pipe: a cut after n bytes means exactly n bytes were consumed); oracle after every "
                 "cut: final name absent unless the data fork is complete, partial file == exact prefix, resume offset == prefix length; after "
                 "completion: file == content, no partial, re-upload refused, stale reference harmless, download returns the content; "
-                "non-trivial = at least one cut that left a non-empty partial file (followed by a resume); distinct = hash(name, content, cuts)",
+                "non-trivial = at least one cut that left a non-empty partial file (followed by a resume); distinct = hash(name, content, cuts); in 3 of 5 cases the client's bytes on the transfer connection are cut into segments (random cuts, cuts inside the fixed-size headers, byte by byte)",
         "assumptions": ["each attempt is written with a single Write (segmentation is C02's subject)", "fork side files (.info_/.rsrc_) left after a cut are not constrained"],
         "quick": {"runs": [{"test": "^TestC09$", "shards": 16, "checks": 250, "timeout": 600}]},
         "thorough": {"runs": [{"test": "^TestC09$", "shards": 16, "checks": 4000, "timeout": 3400}]},
